@@ -136,12 +136,13 @@ Definition path_base (k : N) : N := if is_idx k then N.modulo k 1000 else k.
 Definition path_pos (k : N) : nat := N.to_nat (N.div k 1000 - 1).
 
 (* c_id 0 = no id; c_subject 0 = no subject id; c_jwt 0 = not a JWT credential, else the alg code;
-   c_proofs = linked-data proof types; c_types = credential types (= schema URIs satisfied);
+   c_proofs = linked-data proof types; c_types = credential type TERMS, c_ctx = the JSON-LD context the credential
+   uses (1 or 2): a schema URI is satisfied by a type term through the IRI that context gives the term (type_iri);
    c_sd = SD-JWT credential (every credentialSubject leaf is one disclosure; c_jwt is then its alg);
    c_rawsubj = the holder keeps the subject as a map it built itself, not in the form ParseCredential produces;
    c_attrs = credentialSubject leaves (key, value): key < 100 is a top-level member, key = 100*o + k the member
    k of the nested object o (the same claim name at two levels) *)
-Record cred := { c_id : N; c_issuer : N; c_subject : N; c_types : list N; c_proofs : list N; c_jwt : N;
+Record cred := { c_id : N; c_issuer : N; c_subject : N; c_ctx : N; c_types : list N; c_proofs : list N; c_jwt : N;
                  c_sd : bool; c_rawsubj : bool; c_attrs : list (N * jv) }.
 
 Record jfilter := { ft_type : N;                 (* 0 none, 1 number, 2 string, 3 boolean *)
@@ -251,12 +252,19 @@ Definition constraints_ok (k : constraints) (c : cred) : bool :=
   (negb (k_sii k) || subject_is_issuer c) &&
   match k_fields k with [] => false | fs => forallb (field_ok c) fs end.
 
+(* JSON-LD: the IRI a type term stands for depends on the credential's context.  Vocabulary of the harness: term 1
+   (VerifiableCredential) is IRI 1 everywhere; context 1 maps the terms 2,3,4 to the IRIs 2,3,4; context 2 maps term 3
+   to the same IRI 3 but the terms 2 and 4 to the other IRIs 12 and 14 *)
+Definition type_iri (ctx t : N) : N :=
+  if N.eqb ctx 2 && (N.eqb t 2 || N.eqb t 4) then t + 10 else t.
+Definition type_iris (c : cred) : list N := map (type_iri (c_ctx c)) (c_types c).
+
 (* filterSchema on one credential *)
 Fixpoint schema_loop (l : list (N * bool)) (c : cred) (app : bool) : bool :=
   match l with
   | [] => app
   | (uri, required) :: t =>
-      if memN uri (c_types c) then schema_loop t c true
+      if memN uri (type_iris c) then schema_loop t c true
       else if required then false else schema_loop t c app
   end.
 Definition schema_ok (l : list (N * bool)) (c : cred) : bool := schema_loop l c false.
@@ -399,7 +407,7 @@ Definition id_key (v : variant) (i : nat) (c : cred) : ckey :=
    id, type, issuer, issuanceDate and toSubject(subject): the subject id alone for the parsed single-subject form,
    the WHOLE subject for a subject held as a map (pinned by the package's example tests: known finding) *)
 Definition limited_cred (v : variant) (k : constraints) (c : cred) : cred :=
-  {| c_id := c_id c; c_issuer := c_issuer c; c_subject := c_subject c; c_types := c_types c;
+  {| c_id := c_id c; c_issuer := c_issuer c; c_subject := c_subject c; c_ctx := c_ctx c; c_types := c_types c;
      c_proofs := if k_limit k then [] else c_proofs c; c_jwt := c_jwt c; c_sd := false; c_rawsubj := false;
      c_attrs := write_fields v c (k_limit k) (k_fields k) []
                              (if k_limit k then (if c_rawsubj c then c_attrs c else []) else c_attrs c) |}.
@@ -408,7 +416,7 @@ Definition limited_cred (v : variant) (k : constraints) (c : cred) : cred :=
    their position (digest listed in the parent object of the path), never by claim name alone *)
 Definition requested (k : constraints) (key : N) : bool := existsb (fun f => memN key (f_paths f)) (k_fields k).
 Definition sd_limited (k : constraints) (c : cred) : cred :=
-  {| c_id := c_id c; c_issuer := c_issuer c; c_subject := c_subject c; c_types := c_types c;
+  {| c_id := c_id c; c_issuer := c_issuer c; c_subject := c_subject c; c_ctx := c_ctx c; c_types := c_types c;
      c_proofs := c_proofs c; c_jwt := c_jwt c; c_sd := true; c_rawsubj := false;
      c_attrs := filter (fun kv => requested k (fst kv)) (c_attrs c) |}.
 
